@@ -168,6 +168,7 @@ def check(case, rec):
                 bad("receiver-modified", "%s(inplace=False) changed the "
                     "receiver" % label)
         got = observe.snapshot(r)
+        observe.check_lookups(r, got, label + " result")
         if got["obs"] != ref.obs or got["samp"] != ref.samp:
             bad("ids-changed", "%s changed ids" % label)
         for i in range(len(ref.obs)):
